@@ -133,8 +133,9 @@ theorem holds_iff (M : Model) (u : NoisePoint) (c : Conjunct) : holds M u c = tr
   simp [holds]
 
 /-- summing out ONE variable of a joint event -/
-theorem sum_prob_single (M : Model) (dom : Name → Nat) (hdom : ∀ u d v, solve M u d v < dom v) (T : List Name)
-    (d : Valuation → Do) (σ : Valuation) (r : Name) (hr : r ∈ T) (hdr : ∀ x, d (update σ r x) = d σ) :
+theorem sum_prob_single (M : Model) (dom : Name → Nat) (T : List Name)
+    (d : Valuation → Do) (σ : Valuation) (r : Name) (hdom : ∀ u, solve M u (d σ) r < dom r) (hr : r ∈ T)
+    (hdr : ∀ x, d (update σ r x) = d σ) :
     ((List.range (dom r)).map fun x => prob M (T.map fun V => ⟨V, d (update σ r x), (update σ r x) V⟩)).sum =
       prob M ((T.filter (· ≠ r)).map fun V => ⟨V, d σ, σ V⟩) := by
   have hterm : ∀ x, prob M (T.map fun V => ⟨V, d (update σ r x), (update σ r x) V⟩) =
@@ -163,15 +164,16 @@ theorem sum_prob_single (M : Model) (dom : Name → Nat) (hdom : ∀ u d v, solv
         simp only [update, if_neg hVr]
         exact this
   rw [List.map_congr_left (fun x _ => hterm x)]
-  rw [mass_sum_values M.noise _ (fun u => solve M u (d σ) r) (dom r) (fun u => hdom u _ _), prob_eq_mass]
+  rw [mass_sum_values M.noise _ (fun u => solve M u (d σ) r) (dom r) hdom, prob_eq_mass]
   apply mass_congr
   intro u
   simp [List.all_map]
 
 /-- **marginalisation**: summing a joint event over the variables `rs` (part of the event, not mentioned by the world) leaves
 the joint event of the other variables -/
-theorem sumOver_prob (M : Model) (dom : Name → Nat) (hdom : ∀ u d v, solve M u d v < dom v) (T : List Name)
-    (d : Valuation → Do) (rs : List Name) (hrs : rs.Nodup) (hsub : ∀ r ∈ rs, r ∈ T)
+theorem sumOver_prob (M : Model) (dom : Name → Nat) (T : List Name)
+    (d : Valuation → Do) (rs : List Name) (hdom : ∀ r ∈ rs, ∀ σ u, solve M u (d σ) r < dom r) (hrs : rs.Nodup)
+    (hsub : ∀ r ∈ rs, r ∈ T)
     (hd : ∀ r ∈ rs, ∀ σ x, d (update σ r x) = d σ) (σ : Valuation) :
     sumOver dom rs (fun τ => prob M (T.map fun V => ⟨V, d τ, τ V⟩)) σ =
       prob M ((T.filter (· ∉ rs)).map fun V => ⟨V, d σ, σ V⟩) := by
@@ -180,12 +182,13 @@ theorem sumOver_prob (M : Model) (dom : Name → Nat) (hdom : ∀ u d v, solve M
   | cons r rs ih =>
     rw [sumOver_cons]
     rw [List.nodup_cons] at hrs
-    have ih' := fun τ => ih hrs.2 (fun r' hr' => hsub r' (by simp [hr'])) (fun r' hr' => hd r' (by simp [hr'])) τ
+    have ih' := fun τ => ih (fun r' hr' => hdom r' (by simp [hr'])) hrs.2 (fun r' hr' => hsub r' (by simp [hr']))
+      (fun r' hr' => hd r' (by simp [hr'])) τ
     rw [List.map_congr_left (fun x _ => ih' (update σ r x))]
     have hrT' : r ∈ T.filter (· ∉ rs) := by
       rw [List.mem_filter]
       exact ⟨hsub r (by simp), by simpa using hrs.1⟩
-    rw [sum_prob_single M dom hdom (T.filter (· ∉ rs)) d σ r hrT' (hd r (by simp) σ)]
+    rw [sum_prob_single M dom (T.filter (· ∉ rs)) d σ r (hdom r (by simp) σ) hrT' (hd r (by simp) σ)]
     congr 2
     rw [List.filter_filter]
     apply List.filter_congr
